@@ -101,6 +101,13 @@ QueryMon(e) ==
        IF hh >= 1 /\ hh <= e.lastH THEN [mon EXCEPT !.answers = Ext(@, <<e.path, e.key, hh>>, e.resp.raw)] ELSE mon
   ELSE mon
 
+\* every power in the projection is within the range the harness can represent
+Sane(s) ==
+  /\ \A d \in DOMAIN s.delegs : /\ s.delegs[d].self >= 0 /\ s.delegs[d].total >= 0
+                                  /\ \A i \in 1..Len(s.delegs[d].stakes) : s.delegs[d].stakes[i].pow >= 0
+  /\ \A i \in 1..Len(s.frozen) : s.frozen[i].pow >= 0 /\ s.frozen[i].refund >= 0
+  /\ \A a \in DOMAIN s.accts : s.accts[a].nonce >= 0
+
 StateEvents == {"BeginBlock", "DeliverTx", "EndBlock", "Commit", "CheckTx", "Restart"}
 
 Checks(e, post) ==
@@ -119,6 +126,12 @@ TraceNext ==
         /\ pre' = e.post /\ mon' = GenesisMon(e)
         /\ viol' = Record(e, C11State(e.post))
      ELSE IF mon.dead THEN UNCHANGED <<pre, mon, viol>>
+     ELSE IF e.ev \in StateEvents /\ HasPost(e) /\ ~Sane(e.post) THEN
+        \* a power or height outside the range the consensus engine accepts (rendered as -1): nothing else can be judged
+        /\ viol' = Record(e, {"C11: a stake or delegatee has a power outside the range of valid voting powers (> 2^31/100 in this harness, or negative)",
+                              "C02: a stake or delegatee has a power outside the range of valid voting powers"} \cup C09(e))
+        /\ mon' = [mon EXCEPT !.dead = TRUE]
+        /\ pre' = pre
      ELSE IF e.ev \in StateEvents /\ HasPost(e) THEN
         /\ viol' = Record(e, Checks(e, e.post) \cup C09(e))
         /\ mon' = NextMon(e, e.post)
